@@ -158,6 +158,18 @@ def _mult_eq(items_a, items_b, same):
     """multiset equality as one formula: every element has the same multiplicity in both lists"""
     if len(items_a) != len(items_b):
         return False
+    n = len(items_a)
+    if n == 0:
+        return True
+    if n <= 3:
+        m = [[same(a, b) for b in items_b] for a in items_a]
+        alts = []
+        for perm in itertools.permutations(range(n)):
+            cs = [m[i][perm[i]] for i in range(n)]
+            if any(c is False for c in cs):
+                continue
+            alts.append(and_(cs))
+        return or_(alts) if alts else False
     cs = []
     for x in list(items_a) + list(items_b):
         ca = sum_([ite(same(x, y), 1, 0) for y in items_a])
@@ -361,7 +373,7 @@ def build_rel(ctx, spec, pitch=(60, 61), chan=(0, 0), vel=(1, 127), wait=(1, 32)
                 if i in starts:
                     b.notes.append(NoteV(c, p, starts.pop(i), t, v))
             b.msgs.append(m)
-            b.all_events.append(Ev(t, m))
+            b.all_events.append(Ev(t, m.copy()))
             continue
         if kind == "TS":
             m = ts(el[1], el[2])
@@ -372,8 +384,9 @@ def build_rel(ctx, spec, pitch=(60, 61), chan=(0, 0), vel=(1, 127), wait=(1, 32)
         else:
             raise core.HarnessError(f"bad spec element {el!r}")
         b.msgs.append(m)
-        b.events.append(Ev(t, m))
-        b.all_events.append(Ev(t, m))
+        mc = m.copy()          # expectations never alias the messages handed to the code under test
+        b.events.append(Ev(t, mc))
+        b.all_events.append(Ev(t, mc))
     b.total = t
     b.open = starts
     return b
